@@ -34,7 +34,7 @@ T = ["$", "@", "#", "_", "~", "^", "|", "&", ".", "..", "[", "]", "(", ")", "?",
      "<>", "<", "<=", ">", ">=", "=~", " in ", " contains ", " and ", " or ", " not ", "true", "null", "undefined", "0", "1",
      "-1", "01", "1e2", "1e400", "1.5", "-", "a", "'a'", '"a"', "'", '"', "/a/", "/(/", "/", "\\", "length(", "count(",
      "match(", "nosuch(", " "]
-T_RED = ["$", "@", "[", "]", "?", "*", "==", "1", "'", "(", ")", "/a/", "1e400", " in ", "#"]
+T_RED = ["$", "@", "[", "]", "?", "*", "==", "1", "'", "(", ")", "/a/", "1e400", " in ", "#", "!", " not ", "&&"]
 
 SEEDS = [
     "$.a.b", "$['a']['b']", "$..a", "$.*", "$[*]", "$[0]", "$[-1]", "$[1:3]", "$[::2]", "$[0,1]", "$..[0]", "$['a','b']",
@@ -44,6 +44,7 @@ SEEDS = [
     "^[?@.a]", "$.a | $.b", "$.a & $.b", "a.b", "$[?@.a == undefined]", "$[?@.a != missing]", "$[?@ == 1e2]",
     "$[?@ < 1.5]", "$[?@.a == 'x' and not @.b]", "$..[?@[0] == null]",
     "$[?match(@.a, @.b)]", "$[?search(@.a, @.b)]", "$..[?match(@.a, @.b) || search(@.b, @.a)]",
+    "$[?(@.a && !@.b)]", "$[?(@.a and not @.b)]", "$[?(@.a == 1 && (@.b || !@.c))]", "$[?!(@.a) && (@.b)]",
 ]
 
 DOCS = [None, True, 0, 1.5, "s", [], {}, [1, "a", [2], {"a": 1}], {"a": [1, 2], "b": {"a": "x"}, "1": None},
@@ -53,12 +54,12 @@ DOCS = [None, True, 0, 1.5, "s", [], {}, [1, "a", [2], {"a": 1}], {"a": [1, 2], 
          {"a": "ab", "b": "\\1"}, {"a": "ab", "b": "(?P<n>a)(?P<n>b)"}, {"a": "ab", "b": "*"}, {"a": "ab", "b": "[z-a]"}]]
 
 P_SIGMA = ["/", "~", "0", "1", "-", "+", "#", "\\", "u", "x", "a", "%", " ", "é"]
-BASES = ["", "/a", "/0/1", "/a/b/2"]
+BASES = ["", "/a", "/0/1", "/a/b/2", "/a/²", "/a/①/b", "/٣", "/a/1²"]
 
 
 BIGN = "9" * 5000
 REGEX_BAD = ["(", ")", "[", "*", "a{99999999999999999999}", "a{2,1}", "\\", "(?<=a+)b", "\\1", "(?P<n>a)(?P<n>b)", "[z-a]", "(?i", "a**",
-             "(" * 120 + ")" * 120, "(?P<1>a)", "\\g<x>", "(?(1)a|b)"]
+             "(" * 120 + ")" * 120, "(?P<1>a)", "\\g<x>", "(?(1)a|b)", "(?u)a", "(?L)a", "(?a)(?u)b", "(?x) a", "(?i)(?-i)a", "a(?u)"]
 
 
 def extreme_queries():
@@ -67,10 +68,14 @@ def extreme_queries():
         out += ["$[%s]" % n, "$[%s:]" % n, "$[:%s]" % n, "$[::%s]" % n, "$[0,%s]" % n, "$[?@ == %s]" % n, "$[?@ < %s]" % n,
                 "$[?@[%s]]" % n, "$[?length(@) == %s]" % n, "$[?@ in [%s]]" % n, "$..[%s]" % n]
     for rx in REGEX_BAD:
-        out += ["$[?@.a =~ /%s/]" % rx, "$[?@ =~ /%s/i]" % rx, "$[?match(@.a, '%s')]" % rx.replace("'", ""), "$[?search(@, \"%s\")]" % rx.replace('"', "")]
+        out += ["$[?@.a =~ /%s/]" % rx, "$[?@ =~ /%s/i]" % rx, "$[?@ =~ /%s/a]" % rx, "$[?@ =~ /%s/aims]" % rx, "$[?match(@.a, '%s')]" % rx.replace("'", ""), "$[?search(@, \"%s\")]" % rx.replace('"', "")]
     # (chains are kept below a hundred links: deeper structures are outside the claim)
     out += ["$" + ".a" * 90, "$" + "[0]" * 90, "$[?" + "!" * 90 + "@]", "$[?@" + " && @" * 90 + "]", "$[?@" + " || @ && !@" * 45 + "]",
             "$['" + "a" * 100000 + "']",
+            # unterminated quotes followed by runs that invite catastrophic backtracking in the lexer's own patterns
+            '$["' + "\\\\" * 40 + "]", "$['" + "\\\\" * 40 + "]", '$["' + "\\\\" * 40, "$['" + "\\'" * 60, '$[?@ == "' + '\\"' * 60 + "]",
+            "$[?@ =~ /" + "\\/" * 60, "$[" + "1:" * 3000 + "]", "$" + " " * 20000 + ".a", "$[?" + "(" * 90 + "@" + ")" * 90 + "]",
+            "$.a" + "." * 90 + "b", "$[?@ == " + "-" * 5000 + "1]", "$[" + "'a'," * 3000 + "'a']",
             "$[" + ",".join(["0"] * 5000) + "]", "$[?@ == '" + "\\u0041" * 5000 + "']", "$[?@ in [" + ",".join(["1"] * 5000) + "]]"]
     return out
 
@@ -218,6 +223,13 @@ def _edits(s, alphabet):
         yield s[:i] + s[i + 1:]
         for t in alphabet:
             yield s[:i] + t + s[i + 1:]
+    # delete one occurrence of a multi-character token
+    for t in alphabet:
+        if len(t) > 1:
+            start = s.find(t)
+            while start != -1:
+                yield s[:start] + s[start + len(t):]
+                start = s.find(t, start + 1)
 
 
 def _render(exc):
